@@ -706,7 +706,7 @@ def rule_R14err(text, applied):
         start = _receiver_start(m_text, m.start())
         recv = text[start:m.start()]
         pat2 = "_e" if pat == "_" else pat
-        new = f"(match {recv} {{ Ok(v_) => v_, Err({pat2}) => return Err({body}) }})"
+        new = f"(match {recv} {{ Ok(v_) => v_, Err({pat2}) => return Err({{ {body} }}) }})"
         end = cp + 1 + q.end()
         text = text[:start] + _keep_newlines(text[start:end], new) + text[end:]
         cnt += 1
